@@ -91,6 +91,16 @@ def _refusing_blocks(b):
             rv = st["rv"]
             if rv.get("k") == "agg" and rv.get("adt") == "std::result::Result" and rv.get("variant") == "Err":
                 out.add(i)
+            # a constant negative verdict stored in the return place: `return false`, `return Ok(false)`, `None`
+            if st["dst"]["l"] == 0 and not st["dst"]["p"]:
+                ops = rv.get("ops", [])
+                if rv.get("k") == "agg" and rv.get("variant") == "Ok" and ops and ops[0].get("k") == "const" \
+                        and ops[0].get("ty") == "bool" and ops[0].get("val") == 0:
+                    out.add(i)
+                elif rv.get("k") == "use" and ops and ops[0].get("k") == "const" and ops[0].get("ty") == "bool" and ops[0].get("val") == 0:
+                    out.add(i)
+                elif rv.get("k") == "agg" and rv.get("adt") == "std::option::Option" and rv.get("variant") == "None":
+                    out.add(i)
     return out
 
 
@@ -137,11 +147,27 @@ def check_every_path(ctx, anchor, a_starts, b_starts, cut_sponge=True):
             m.setdefault(n, set()).add(stack[-1][0] if stack else None)
         return m
     fa, fb = frames(pa), frames(pb)
+    callers = {}
+
+    def sites_of(fr, nodes):
+        """call sites through which the operand reached its body; a value picked up inside a helper without a
+        calling context (a field read there) may have come through any call of that helper."""
+        out = set()
+        for n in nodes:
+            for s in fr.get(n, ()):
+                if s is None and n[0] != anchor.body.id and f.bodies[n[0]].kind != "Closure":
+                    if n[0] not in callers:
+                        callers[n[0]] = {(cb, ci) for cb in g.scope for ci, t in f.bodies[cb].calls()
+                                         if n[0] in f.call_targets(t, g.ctx_adt)}
+                    out |= callers[n[0]] or {None}
+                else:
+                    out.add(s)
+        return out
     meet_blocks = {}      # body -> blocks that perform (or call something that performs) the comparison
     for (bid, blk, l, r, res, span) in comparison_sites(g):
         for (x, y) in ((l, r), (r, l)):
-            sa = set().union(*[fa.get(n, set()) for n in x]) if x else set()
-            sb = set().union(*[fb.get(n, set()) for n in y]) if y else set()
+            sa = sites_of(fa, x)
+            sb = sites_of(fb, y)
             for site in sa & sb:
                 if site is None or not (isinstance(site, tuple) and site[0] in f.bodies):
                     meet_blocks.setdefault(bid, set()).add(blk)
